@@ -34,11 +34,18 @@ func runC09(c *core.Ctx) {
 	g0 := world.BaseGraph(0)
 	gfs := g0.FSView(s)
 	var idx int64
+	// beside @skip / @include the selection may carry @trace(if: ...), a directive of the schema's own whose "if" is no inclusion
+	// condition: absent, or one of four sources in front of / behind the other two - it must change nothing
+	traces := []struct {
+		src   string
+		front bool
+	}{{"absent", false}, {"lit-false", false}, {"lit-false", true}, {"var-false", false}, {"var-false", true}, {"vardef-false", true}, {"lit-true", false}}
 	for si, ssrc := range c09Sources {
 		for ii, isrc := range c09Sources {
 			for order := 0; order < 2; order++ {
 				for kind := 0; kind < 3; kind++ {
-					for depth := 1; depth <= 3; depth++ {
+					for depth0 := 3; depth0 < 3+3*len(traces); depth0++ {
+						depth, trace := depth0%3+1, traces[depth0/3-1]
 						idx++
 						if !c.OwnsIdx(idx) {
 							continue
@@ -64,12 +71,18 @@ func runC09(c *core.Ctx) {
 								dirs = append(dirs, world.Dir{Name: name, If: world.VarRef(vname)})
 							}
 						}
+						if trace.front {
+							mk("trace", trace.src, "tr")
+						}
 						if order == 0 {
 							mk("skip", ssrc, "sk")
 							mk("include", isrc, "inc")
 						} else {
 							mk("include", isrc, "inc")
 							mk("skip", ssrc, "sk")
+						}
+						if !trace.front {
+							mk("trace", trace.src, "tr")
 						}
 						inner := world.F("mkid", world.F("id"), world.F("mi"))
 						var target *world.Sel
@@ -125,7 +138,7 @@ func runC09(c *core.Ctx) {
 							}
 							c.Outcome(k)
 							attrs := map[string]string{"skip": c09Sources[si], "include": c09Sources[ii], "order": []string{"skip-first", "include-first"}[order],
-								"selection": []string{"field", "inline", "spread"}[kind]}
+								"selection": []string{"field", "inline", "spread"}[kind], "trace": trace.src}
 							if k == "panic" {
 								attrs = map[string]string{"site": o.Panic.Site, "class": o.Panic.Class}
 							}
@@ -594,5 +607,5 @@ func runC09(c *core.Ctx) {
 			}
 		}
 	}
-	c.R.Bound = "complete table 49 x 2 x 3 x 3 x configurations; the same for selections directly on a union / interface container and for __typename; the selection written twice (9 x 9 directive states x 3 kinds x 2 spacings); + all ordered pairs of 9 variable maps (supplied / omitted) on one parsed executable; + conditions below __schema / __type / __typename under all ordered pairs of 5 variable assignments on one parsed executable; + the payload of a subscription event: 2 directives x 7 condition sources, squared, parsed afresh and prepared"
+	c.R.Bound = "complete table 49 x 2 x 3 x 3 x 7 (a directive of the schema with an if argument beside them) x configurations; the same for selections directly on a union / interface container and for __typename; the selection written twice (9 x 9 directive states x 3 kinds x 2 spacings); + all ordered pairs of 9 variable maps (supplied / omitted) on one parsed executable; + conditions below __schema / __type / __typename under all ordered pairs of 5 variable assignments on one parsed executable; + the payload of a subscription event: 2 directives x 7 condition sources, squared, parsed afresh and prepared"
 }
